@@ -15,6 +15,16 @@ for f in ("patch.diff", "demo.py", "note.md"):
     if os.path.exists(os.path.join(src, f)):
         shutil.copy(os.path.join(src, f), os.path.join(out, f))
 meta = {"seed": sid, "breaks_property": prop, "checks_run": checks}
+prev_meta = {}
+if os.path.exists(os.path.join(out, "meta.json")):
+    try:
+        prev_meta = json.load(open(os.path.join(out, "meta.json")))
+    except Exception:
+        prev_meta = {}
+if nosuite:
+    for k in ("suite_with_change", "suite_ok"):
+        if k in prev_meta:
+            meta[k] = prev_meta[k]
 
 
 def sh(cmd, **kw):
